@@ -160,6 +160,15 @@ func (g *Rng) e2eParams(id string, more bool) string {
 	return "{" + strings.Join(members, ","+g.ws()) + "}"
 }
 
+// bracePad: n bytes of string content in which structural-looking characters ({ } [ ] : ,) occur all along, so that a
+// transport or reader that treats some byte specially anywhere in a long message shows
+func bracePad(n int) string {
+	if n <= 0 {
+		return ""
+	}
+	return strings.Repeat("a{b}c[d]e:f,", n/12+1)[:n]
+}
+
 func init() {
 	commands["bridgechild"] = func(e *env) error { return nil } // handled in main()
 	commands["e2e"] = func(e *env) error {
@@ -289,10 +298,10 @@ func init() {
 					if g.Bool() {
 						head := `{"id":"e2e","acts":[["r",{}]],"pad":"`
 						frame := len(`{"method":"`) + len(c.method) + len(`","parameters":`) + len(head) + len(`"}`) + len(flagTxt) + len(`}`) + 1
-						c.params = head + strings.Repeat("x", want-frame) + `"}`
+						c.params = head + bracePad(want-frame) + `"}`
 					} else {
 						replyFrame := len(`{"parameters":{"pad":"`) + len(`"}}`) + 1
-						c.params = `{"id":"e2e","acts":[["r",{"pad":"` + strings.Repeat("y", want-replyFrame) + `"}]]}`
+						c.params = `{"id":"e2e","acts":[["r",{"pad":"` + bracePad(want-replyFrame) + `"}]]}`
 					}
 					params = json.RawMessage(c.params)
 				} else if !g.Chance(1, 15) {
